@@ -15,7 +15,7 @@ func init() {
 	register(&CheckDef{
 		ID:    "C17",
 		Level: "exploration",
-		Rule: "part 1 (crash consistency of the journal protocol): a PagerSim journal transaction (every shape: single/multi segment, synced/no-sync, DELETE/TRUNCATE/PERSIST with stale tails from earlier transactions, grow/shrink) is interrupted before EVERY file operation; each interruption image, plus variants in which the last un-synced journal write is torn at several byte-length classes or the header is zeroed/truncated, is opened by a fresh Store and the database bytes and size must equal the pre-transaction image (or the post image once the commit point has passed). part 2 (WAL scanning): the real litefs.WALReader and the checkpoint performed by Store.Open are compared with an independent scanner written from SQLite's file-format document on PagerSim-produced logs, on mutations of them (bit flips, truncation, zeroed regions, swapped salts, altered page numbers, spliced generations) and on random bytes: same accepted frame sequence, only frames up to the last commit mark reach the database. part 3: arbitrary bytes as journal or WAL never panic, and no page beyond the database is written (page-write hook). evaluations = images/byte strings decided; distinct = distinct (part, shape/mutation kind, outcome class) tuples; non-trivial = run with >= 5 decided cases",
+		Rule:  "part 1 (crash consistency of the journal protocol): a PagerSim journal transaction (every shape: single/multi segment, synced/no-sync, DELETE/TRUNCATE/PERSIST with stale tails from earlier transactions, grow/shrink) is interrupted before EVERY file operation; each interruption image, plus variants in which the last un-synced journal write is torn at several byte-length classes or the header is zeroed/truncated, is opened by a fresh Store and the database bytes and size must equal the pre-transaction image (or the post image once the commit point has passed). part 2 (WAL scanning): the real litefs.WALReader and the checkpoint performed by Store.Open are compared with an independent scanner written from SQLite's file-format document on PagerSim-produced logs, on mutations of them (bit flips, truncation, zeroed regions, swapped salts, altered page numbers, spliced generations) and on random bytes: same accepted frame sequence, only frames up to the last commit mark reach the database. part 3: arbitrary bytes as journal or WAL never panic, and no page beyond the database is written (page-write hook). evaluations = images/byte strings decided; distinct = distinct (part, shape/mutation kind, outcome class) tuples; non-trivial = run with >= 5 decided cases",
 		Run:   runC17,
 		NonTrivial: func(r *Run) bool {
 			return r.Stats["c17.decided"] >= 5
